@@ -238,6 +238,8 @@ class Run(object):
             return Violation("sides_attr", idx, "sides reports %r, expected %r" % (p.sides, self.sides))
         if not self.model_ok:
             return None
+        if self.cplx and self.sides == "onesided":
+            return None                   # undefined content (see _op_sides)
         self.checked_reads += 1
         if self.cplx and p.NFFT != self.M:
             return Violation("len", idx, "a PSD of %d values was stored for complex data but NFFT reports %r"
@@ -357,6 +359,8 @@ class Run(object):
     def _op_sides(self, idx, op):
         p = self.p
         val = op["value"]
+        if isinstance(val, str):
+            val = "".join(list(val))      # a run-time string (as read from a file or a GUI), not an interned literal
         target = default_sides(self.cplx) if val == "default" else val
         valid = val in SIDES or val == "default"
         undefined = valid and self.cplx and target == "onesided"
@@ -398,8 +402,9 @@ class Run(object):
             self.bump("invalid_sides_name_accepted")
             return None, "ok"
         if undefined:
-            # a one-sided representation of a complex-data PSD is not defined by the statement: stop checking
-            self.model_ok = False
+            # A one-sided representation of a complex-data PSD is not defined by the statement, so what it
+            # contains is not examined; but "returning to the original sides restores the original values"
+            # holds for ANY sequence: the model is kept, and the next defined representation is checked.
             self.sides = p.sides
             self.bump("undefined_onesided_complex_accepted")
             return None, "ok"
@@ -481,7 +486,7 @@ class Run(object):
 
     def _op_conv(self, idx, op):
         p = self.p
-        s = op["sides"]
+        s = "".join(list(op["sides"]))     # run-time string
         valid = s in SIDES
         undefined = valid and self.cplx and s == "onesided"
         if self.pending:
